@@ -74,7 +74,7 @@ def instances(tier):
 
 
 def build(tier, seed):
-    plan = Plan("C08", level="proof")
+    plan = Plan("C08", level="other")        # every obligation is size-bounded (all values, enumerated shapes): not a proof of the unbounded statement
     plan.explanation = ("is_commuting is CALLED on real operator instances; every positive answer is proved by showing that the "
                         "commutator of the two real matrix kernels, executed on exact symbolic parameters and embedded in the joint "
                         "register, vanishes identically (Laurent normal form); Pauli-word exactness by complete enumeration on small "
